@@ -205,6 +205,12 @@ theorem state_single_use_partial (w : World) (hc : w.cacheMode = false) (i : Nat
   · rw [run_cacheMode, cacheMode_const]; exact hc
   · exact absent_stays_absent_partial _ i later hno _ ((cacheMode_const _ _).trans hc) (callback_consumes_partial w hc i n st)
 
+/-- the redirect_uri sent to the token endpoint is the one saved for the state whenever one was saved —
+    a registered default never replaces it -/
+theorem sent_redirect_is_the_saved_one (defaults : List (String × String)) (name : String) (d : Data) (r : String)
+    (h : d.redirect = some r) : sentRedirect defaults name d = some r := by
+  simp [sentRedirect, h]
+
 /-! ### the key is injective when provider names contain no underscore -/
 
 theorem append_inj_of_no_sep (sep : Char) : ∀ (a b c d : List Char), sep ∉ a → sep ∉ c →
